@@ -52,6 +52,10 @@ func (t *System) buildOpenArgs(a *Args) {
 		fmt.Sprintf("ConnectTimeout=%d", int(a.TimeoutSocket.Seconds())),
 		"-o",
 		fmt.Sprintf("ServerAliveInterval=%d", int(a.TimeoutSocket.Seconds())),
+		// no escape character: with a tty ssh otherwise interprets '~' at the start of a line
+		// ("~." disconnects, "~~" sends a single '~'), so such input would never reach the device
+		"-o",
+		"EscapeChar=none",
 	}
 
 	if a.User != "" {
